@@ -254,3 +254,48 @@ def tag_lines(lines):
 
 def fchk_line(sim, tags, lines):
     return 'fchk\t%s\t%s\t%s' % (sim, tags, '\t'.join(hx(l) for l in lines))
+
+
+# AUTOUGH2: tags p K h k c b H B r z a n x (see coq/C05/Drv.v)
+AKW = ('EEEEE', 'CCCCC', 'GGGGG')
+
+
+def tag_lines_AUT(lines):
+    n = len(lines)
+    tags = ['p'] * n
+    def kw(i): return lines[i][1:6] if i < n else ''
+    def table(i, letter):
+        """tags the table whose three header lines start at line i; -> index after it or None"""
+        if i + 9 > n or kw(i + 3) != letter * 5: return None
+        j = i + 8
+        if not lines[j].strip() or kw(j) == letter * 5: return None
+        z = next((q for q in range(j, n) if kw(q) == letter * 5), None)
+        if z is None or z + 1 >= n: return None
+        tags[i] = tags[i + 1] = tags[i + 2] = 'h'
+        tags[i + 3] = 'k'; tags[i + 4] = 'c'; tags[i + 5] = 'b'; tags[i + 6] = 'H'; tags[i + 7] = 'B'
+        for q in range(j, z): tags[q] = 'r'
+        tags[z] = 'z'; tags[z + 1] = 'a'
+        return z + 2
+    i = 0
+    found = False
+    while i < n:
+        if kw(i) != 'EEEEE': i += 1; continue
+        nxt = table(i + 1, 'E')
+        if nxt is None: i += 1; continue
+        tags[i] = 'K'; found = True
+        i = nxt
+        while i < n and kw(i) in ('CCCCC', 'GGGGG'):
+            nx2 = table(i + 1, kw(i)[0])
+            if nx2 is None: break
+            tags[i] = 'n'; i = nx2
+        # lines after the last table of this set and before the next set: 'x' up to the next set's keyword line
+        j = i
+        while j < n and not (kw(j) == 'EEEEE'): j += 1
+        # give the lines to this set's post; the next set then has an empty 'p' part
+        for q in range(i, j): tags[q] = 'x'
+        i = j
+    return ''.join(tags) if found else None
+
+
+def achk_line(tags, lines):
+    return 'achk\t-\t%s\t%s' % (tags, '\t'.join(hx(l) for l in lines))
